@@ -140,3 +140,31 @@ func init() {
 		},
 	})
 }
+
+func init() {
+	register(&propSpec{
+		id: "C07",
+		explanation: "Structural necessary conditions of 'cancelling a streaming call cancels its handler and fails the caller's calls': the stream context's only roots are the caller's NewStream context (C07.1); every blocking step of the client stream selects on / is handed that context (C07.2); context errors on the Done branches are converted by toStatusError, which maps Canceled and DeadlineExceeded via status.FromContextError (C07.3); the reset is written on every exit of the read loop when due, with a bounded context that does not descend from the (already done) stream context (C07.4); a reset for a registered stream calls that entry's cancel, which is result 1 of the contextFromHeaders call whose result 0 is the handler's context (C07.5); the handler-side reader/writer closures and serverStream honour the handler context (C07.6). That the reset arrives and where the cancellation lands in a trace are NOT decided.",
+		ruleText:    "obligation = one context store, blocking primitive, conversion, write or call site; non-trivial = needed context ancestry, facts or path search",
+		assumptions: baseAssumptions,
+		run: func(c *Ctx, thorough bool) {
+			c.guard("C07.1", func() { ruleStreamCtxDescends(c, "C07.1") })
+			c.guard("C07.2", func() { ruleStreamBlockingHonoursCtx(c, "C07.2") })
+			c.guard("C07.3", func() { ruleCtxErrorToStatus(c, "C07.3") })
+			c.guard("C07.4", func() { ruleResetOnLiveContext(c, "C07.4") })
+			c.guard("C07.5", func() { ruleResetCancelsHandler(c, "C07.5") })
+			c.guard("C07.6", func() { ruleHandlerBlockingHonoursCtx(c, "C07.6") })
+		},
+	})
+	register(&propSpec{
+		id: "C08",
+		explanation: "Structural necessary conditions of 'caller deadlines reach the handler; timeout header values mean what they say': the key, unit suffix and divisor the client emits agree with the key the server matches and the unit table it reads (C08.1); that table is exactly the gRPC table and unknown units are rejected (C08.2); the header is emitted only under ok of ctx.Deadline(), a deadline is set only when the key matched and the value parsed, otherwise a cancel-only context, and the handler context descends from it (C08.3); the emitted integer is the floor quotient or the constant 1 under ≤0 (C08.4); the duration product is dominated by a bound on the parsed value (C08.5); empty / unparsable / unit-less values are rejected and signs / over-long digit strings are excluded before ParseInt (C08.6). The numeric relation between caller and handler deadlines is NOT decided.",
+		ruleText:    "obligation = one literal-table agreement, guard, or arithmetic site; non-trivial = needed table extraction, facts or provenance",
+		assumptions: baseAssumptions,
+		run: func(c *Ctx, thorough bool) {
+			c.guard("C08.1", func() { ruleTimeoutTables(c, "C08.1", "C08.2") })
+			c.guard("C08.3", func() { ruleDeadlineIffDeadline(c, "C08.3") })
+			c.guard("C08.4", func() { ruleTimeoutArithmetic(c, "C08.4", "C08.5", "C08.6") })
+		},
+	})
+}
